@@ -16,7 +16,7 @@ FUNCTIONS = [
     "cnvlib.smoothing.rolling_median (through the window model)",
 ]
 BOUNDS = {
-    "matching": "reference of 4 bins with concrete coordinates; one bin at a time has fully symbolic log2/spread/depth/gc (the others concrete, passing); sample = all / subset / permuted rows / one absent / duplicated coordinates",
+    "matching": "reference of 4 bins with concrete coordinates; one bin at a time has fully symbolic log2/spread/depth/gc (the others concrete, passing); sample = all / subset / permuted rows / one absent / duplicated coordinates; also the same start/end tiling on two chromosomes with the reference's chromosomes listed in the other order, and with the sample's second chromosome absent from the reference",
     "arithmetic": "3 target (+1 on chrX in the with_x configurations) + 0-2 antitarget bins on two autosomes, every reference bin passing the filters (pooled: log2 in [0.05, 0.95], spread in [0.001, 1]; or flat), sample log2 in [-3, 3] (no null coverage: one path through the masks), corrections off",
     "row permutation": "do_fix on 4 target + 0-2 antitarget bins with symbolic sample log2 in [-3, 3], concrete passing reference (gc/rmask distinct or tied), every subset of corrections in the thorough tier, rows of target/antitarget/reference reversed, rotated or with the first two swapped, against the same call on sorted rows",
     "corrections": "center_by_window on 4 bins with a symbolic covariate (distinct values), window fraction 0.5 / 0.99; edge formulas with symbolic bin sizes and gaps",
@@ -71,14 +71,27 @@ def ref_ok(cols, i):
     return c
 
 
+REF_TILED = [("chr1", 100, 300, "A"), ("chr1", 300, 700, "A"), ("chr2", 100, 300, "B"), ("chr2", 300, 700, "B")]
+
+
 def h_match(ctx, layout, with_gc, sym_bin=0):
-    """load_adjust_coverages, corrections off: which bins are kept."""
+    """load_adjust_coverages, corrections off: which bins are kept.  The `t_*` layouts use the same
+    start/end tiling on both chromosomes (only the chromosome tells the bins apart): `t_unsorted_ref`
+    lists the reference's chromosomes in the other order (rows are matched by coordinate, never by
+    position), `t_foreign` puts the sample's second pair of bins on a chromosome the reference lacks."""
+    REF_BINS = REF_TILED if layout.startswith("t_") else globals()["REF_BINS"]
     rcols = ref_table(ctx, REF_BINS, with_gc, sym_bin=sym_bin)
-    ref = make_cna(rcols, {"sample_id": "ref"})
-    ref.sort()
+    if layout == "t_unsorted_ref":
+        order = [2, 3, 0, 1]
+        ref = make_cna({k: [v[i] for i in order] for k, v in rcols.items()}, {"sample_id": "ref"})
+    else:
+        ref = make_cna(rcols, {"sample_id": "ref"})
+        ref.sort()
     # the sample: rows of the reference by index (permuted / subset), optionally a foreign or duplicated bin
-    idx = {"all": [0, 1, 2, 3], "subset": [0, 2], "permuted": [2, 0, 3, 1], "absent": [0, 1], "dup": [0, 1, 1]}[layout]
+    idx = {"all": [0, 1, 2, 3], "subset": [0, 2], "permuted": [2, 0, 3, 1], "absent": [0, 1], "dup": [0, 1, 1], "t_unsorted_ref": [0, 1, 2, 3], "t_all": [0, 1, 2, 3], "t_foreign": [0, 1, 2, 3]}[layout]
     sb = [REF_BINS[i] for i in idx]
+    if layout == "t_foreign":
+        sb = [b if b[0] == "chr1" else ("chr3",) + b[1:] for b in sb]
     if layout == "absent":
         sb = sb + [("chr1", 300, 701, "A")]
     n = len(sb)
@@ -94,7 +107,7 @@ def h_match(ctx, layout, with_gc, sym_bin=0):
     except Exception as exc:
         claim_raised(ctx, "load_adjust_coverages", exc)
         return
-    if layout in ("absent", "dup"):
+    if layout in ("absent", "dup", "t_foreign"):
         ctx.claim(raised is not None, "a sample bin absent from the reference, or duplicated coordinates, is refused")
         ctx.cover("refused")
         return
@@ -113,6 +126,8 @@ def h_match(ctx, layout, with_gc, sym_bin=0):
     ctx.claim(got == want, "exactly the sample bins whose coordinate-matched reference bin passes the filters are kept, in genomic order")
     gotr = [(r.chromosome, r.start, r.end) for r in refm.data.itertuples(index=False)]
     ctx.claim(gotr == want, "the matched reference rows are the same bins, matched by coordinate and never by row position")
+    want_l2 = [rcols["log2"][[k for k, b in enumerate(REF_BINS) if (b[0], b[1], b[2]) == w][0]] for w in want]
+    ctx.claim(len(refm) == len(want) and And(*[x == y for x, y in zip(list(refm.data["log2"]), want_l2)]), "each matched reference row carries the log2 of the reference bin with those coordinates")
     ctx.cover("dropped a bad bin", len(want) < len(srows))
     ctx.cover("kept all", len(want) == len(srows))
 
@@ -339,7 +354,9 @@ HARNESSES = [
         "match_filter",
         h_match,
         [{"layout": l, "with_gc": gcf, "sym_bin": sb} for l in ("all", "subset", "permuted") for gcf in (True, False) for sb in ((0, 1, 2, 3) if l != "subset" else (0, 2))]
-        + [{"layout": l, "with_gc": gcf} for l in ("absent", "dup") for gcf in (True, False)],
+        + [{"layout": l, "with_gc": gcf} for l in ("absent", "dup") for gcf in (True, False)]
+        + [{"layout": "t_unsorted_ref", "with_gc": True, "sym_bin": sb} for sb in (0, 2)]
+        + [{"layout": "t_all", "with_gc": False, "sym_bin": 3}, {"layout": "t_foreign", "with_gc": True}],
         covers=["refused", "dropped a bad bin", "kept all"],
         wall_s=300,
         thorough_wall_s=1500,
